@@ -243,6 +243,34 @@ def evaluate(node):
         os.chdir("/")
         if canon.snapshot(root) != before:
             bad("discovery-writes", f"get_project/get_job changed the tree: {canon.snap_diff(before, canon.snapshot(root))[:4]}", [])
+        # ---- a project created later, nearer to directories that were already queried, must be found from then on
+        cand = [d for d, k in lay.dirs if k == "plain" and d and ref_get_project(lay, d) not in (None, d)
+                and any(x != d and x.startswith(d + os.sep) for x, _ in lay.dirs)]
+        if cand:
+            newp = cand[0]
+            os.chdir("/")
+            try:
+                signac.init_project(os.path.join(root, newp))
+                lay.projects.append(newp)
+                for rel, _ in lay.dirs:
+                    if rel == newp or rel.startswith(newp + os.sep):
+                        for search in (True, False):
+                            want = ref_get_project(lay, rel, search)
+                            n += 1
+                            try:
+                                got = os.path.relpath(os.path.realpath(signac.get_project(os.path.join(root, rel), search=search).path),
+                                                      os.path.realpath(root))
+                            except LookupError:
+                                got = None
+                            want_real = None if want is None else os.path.relpath(os.path.realpath(os.path.join(root, want)),
+                                                                                  os.path.realpath(root))
+                            if got != want_real and not any(l[0] == rel for l in lay.jobs if l[3]):
+                                bad("get-project-wrong", f"after init_project({newp!r}) get_project({rel!r}, search={search}) gives "
+                                    f"{got!r}, expected {want_real!r}", [rel, "after-new-project", search], search=search,
+                                    expected_none=want is None, after_new_project=True)
+            except Exception as e:  # noqa
+                bad("public-call-raises", f"init_project in {newp!r}: {type(e).__name__}: {e}", [newp], exc=type(e).__name__)
+            before = canon.snapshot(root)
         # ---- init_project on every existing project is a no-op returning the project
         for prel in lay.projects:
             full = os.path.join(root, prel) if prel else root
